@@ -1,8 +1,14 @@
 /-
   Life cycle of the secret containers (`PrivateKey`, `PayloadKey` in src/crypto/src/lib.rs): construction,
-  cloning (deep), dropping (= zeroize, then release).  What `Drop` does is read from the table the translator
-  extracts from the source (`Generated.containers`): if a `Drop` impl disappears or no longer zeroizes the secret
-  field, `dropContents` returns the secret unchanged and the obligations in KestrelProps/C20.lean fail.
+  cloning (deep), overwriting in place (`a.clone_from(&b)`), dropping (= zeroize, then release).  What `Drop` does is
+  read from the table the translator extracts from the source (`Generated.containers`): if a `Drop` impl disappears
+  or no longer zeroizes the secret field, `dropContents` returns the secret unchanged and the obligations in
+  KestrelProps/C20.lean fail.
+
+  `cloneFrom i j` releases the buffer container `i` held before the assignment.  The default `Clone::clone_from` is
+  `*self = source.clone()`, which drops the old value of `self` (zeroize, then release): table field
+  `assignDropsOld = true`.  A hand-written `clone_from` that assigns only the secret field hands the old buffer back
+  WITHOUT running `Drop` on it: `assignDropsOld = false`, and the old secret is released as it is.
 -/
 import KestrelModel.Bytes
 import KestrelModel.Generated
@@ -13,6 +19,7 @@ inductive Op
   | fromBytes (b : Bytes)          -- try_from(&[u8]) / PayloadKey::new
   | clone (i : Nat)
   | drop (i : Nat)
+  | cloneFrom (i j : Nat)          -- live[i].clone_from(&live[j]): the value container i held is replaced by a copy of j's
 deriving Repr, DecidableEq
 
 structure Heap where
@@ -35,6 +42,12 @@ def step (c : Generated.Container) (h : Heap) : Op → Heap
     match h.live[i]? with
     | some (some b) => { live := h.live.set i none, released := dropContents c b :: h.released }
     | _ => h
+  | .cloneFrom i j =>
+    match h.live[i]?, h.live[j]? with
+    | some (some bi), some (some bj) =>
+      { live := h.live.set i (some bj),
+        released := (if c.assignDropsOld then dropContents c bi else bi) :: h.released }
+    | _, _ => h
 
 def run (c : Generated.Container) (ops : List Op) : Heap := ops.foldl (step c) {}
 
